@@ -737,13 +737,43 @@ def check_C02(ck):
         ab.append(("abort%d-%s" % (i, pol), lines))
     io2, mo2, nb2 = correspondence(ck, ab, "C02: a returning handler aborts the program")
     aborted = sum(1 for ls in io2.values() if "!signal 6" in ls)
+    # tables installed by decode_dispatch_data instead of update: unresolvable calls must be reported in the same way
+    # (status, arity, type ids) - the error pseudo-definitions are numbered by the compiler, emitted by the encoder
+    # and indexed again by the decoder
+    rng3 = random.Random(repr((ck.seed, "C02-decoded")))
+    dec = []
+    for i in range(tier_n(ck, 120, 1500)):
+        pre, post, reg = gen_tag_script(rng3, pol="gen")
+        calls = [l for l in post if l.startswith("call ")]
+        dec.append(("decoded%d" % i, pre + ["update", "encode"] + calls + ["echo D", "decode"] + calls))
+
+    def decoded_oracle(bad, by_name, io):
+        for name, lines in dec:
+            out = verif.visible(io.get(name, []))
+            if "@D" not in out:
+                continue
+            k = out.index("@D")
+            before = [l for l in out[:k] if l.startswith(("ran", "raised"))]
+            after = [l for l in out[k:] if l.startswith(("ran", "raised"))]
+            d_ = [z for z in zip(before, after) if z[0] != z[1] and (z[0].startswith("raised resolution") or z[1].startswith("raised resolution"))]
+            if d_:
+                return (name, lines, {"kind": "failing input: with the tables installed by decode_dispatch_data an unresolvable call is reported differently from after update",
+                                      "first_difference(after update, after decoding)": d_[:1]})
+        return None
+    io3, mo3, nb3 = correspondence(ck, dec, "C02: error reports with tables installed by decode_dispatch_data", oracle=False, extra_oracle=decoded_oracle)
+    f3 = decoded_oracle(None, None, io3)
+    if f3 and not any(f_ for _, f_ in ck.violations):
+        f3[2].update(property="C02", script=f3[1])
+        ck.violation(verif.write_replay("C02", f3[0], f3[2]), True)
+    errors_after_decoding = sum(1 for name, _ in dec for l in verif.visible(io3.get(name, []))[(verif.visible(io3.get(name, [])).index("@D") if "@D" in verif.visible(io3.get(name, [])) else 0):] if l.startswith("raised resolution"))
     # compiled programs: the error object built by the real handlers from the declared parameter types
     # (every way of writing a virtual parameter), compared with the specification call by call
     wp = whole_programs(ck, tier_n(ck, 12, 60), policies=("default", "::yorel::yomm2::policy::debug"),
                         shapes=("P", "PV", "PP", "VP", "V", "VV", "NPN", "VNV"))
     wp["calls_that_raise_an_error"] = wp.pop("raised", None)
     std_evidence(ck, ["C02"], scripts + ab, gscripts, stats, impl_out,
-                 {"scripts_with_returning_handler": len(ab), "of_which_aborted": aborted, "whole_programs": wp})
+                 {"scripts_with_returning_handler": len(ab), "of_which_aborted": aborted, "whole_programs": wp,
+                  "scripts_with_decoded_tables": len(dec), "resolution_errors_reported_after_decoding": errors_after_decoding})
 
 
 # ----------------------------------------------------------------------------------------------------
